@@ -35,6 +35,7 @@ void    vs_exit(int64_t slot, int again);
 int     vs_invocations(int cls, int np, const int *params);
 void    vs_note(const char *fmt, ...);        /* free-form line into the log (callbacks, API returns) */
 int64_t vs_stamp(void);                       /* next value of the global sequence counter */
+void    vs_arm(void);                         /* start the quiescence watchdog (call when every rank is initialised) */
 void    vs_finish(void);                      /* write the log file */
 void    vs_spin(int iters);
 
